@@ -37,7 +37,7 @@ OFF = {"absent": None, "zero": 0, "pos": 7}
 SETTERS = ["limit_offset", "offset_limit", "slice", "getitem"]
 MSSQL_SETTERS = ["fetch_next_offset", "offset_fetch_next", "top", "top_limit"]
 POSITIONS = ["top", "from-subquery", "in-subquery", "set-operand", "set-operation", "join-subquery", "cte"]
-SURROUND = ["plain", "where", "groupby", "join", "distinct"]
+SURROUND = ["plain", "where", "groupby", "join", "nested-order-in", "window-order", "cte-ordered", "distinct"]
 
 
 def cases(tier, seed, shard, nshards):
@@ -50,7 +50,7 @@ def cases(tier, seed, shard, nshards):
                     for order in (False, True):
                         for pos in POSITIONS:
                             for mode in ("inline", "param"):
-                                for sur in (SURROUND if tier == "thorough" else SURROUND[:4]):
+                                for sur in (SURROUND if tier == "thorough" else SURROUND[:7]):
                                     k += 1
                                     if k % nshards == shard:
                                         yield {"d": d, "setter": setter, "lim": ln, "off": on, "order": order, "pos": pos,
@@ -68,6 +68,14 @@ def base_query(d, order, sur, reg, t):
         q = q.join(u).on(t.id == u.id)
     elif sur == "distinct":
         q = q.distinct()
+    elif sur == "nested-order-in":  # an ORDER BY that belongs to a nested query, not to this one
+        u = reg["Table"]("u")
+        q = q.where(t.id.isin(reg[d].from_(u).select(u.id).orderby(u.id).limit(1000)))
+    elif sur == "window-order":
+        q = q.select(reg["an.RowNumber"]().over(t.a).orderby(t.b))
+    elif sur == "cte-ordered":
+        u = reg["Table"]("u")
+        q = q.with_(reg[d].from_(u).select(u.id).orderby(u.id).limit(1000), "c0")
     if order:
         q = q.orderby(t.id)
     return q
@@ -120,19 +128,20 @@ def embed(pos, d, inner, reg, t, paginated_setop=None):
     Q = reg[d]
     if pos == "top":
         return inner
+    # (every container carries a value of its own *after* the embedded query, so that the parameter list goes on behind the tail)
     if pos == "from-subquery":
         s = inner.as_("s")
-        return Q.from_(s).select(s.id)
+        return Q.from_(s).select(s.id).where(s.id < 999)
     if pos == "join-subquery":
         s = inner.as_("s")
-        return Q.from_(t).select(t.a).join(s).on(t.id == s.id)
+        return Q.from_(t).select(t.a).join(s).on(t.id == s.id).where(t.a < 999)
     if pos == "in-subquery":
-        return Q.from_(t).select(t.a).where(t.id.isin(inner))
+        return Q.from_(t).select(t.a).where(t.id.isin(inner)).where(t.a < 999)
     if pos == "set-operand":
-        return inner.union(Q.from_(t).select(t.b))
+        return inner.union(Q.from_(t).select(t.b).where(t.b < 999))
     if pos == "cte":
         c = reg["AliasedQuery"]("c1")
-        return Q.with_(inner, "c1").from_(c).select(c.id)
+        return Q.with_(inner, "c1").from_(c).select(c.id).where(c.id < 999)
     raise ValueError(pos)
 
 
@@ -326,9 +335,11 @@ def run_case(case, mon):
     d, pos, mode = case["d"], case["pos"], case["mode"]
     lim, off = LIM[case["lim"]], OFF[case["off"]]
     t = reg["Table"]("t")
+    if case["sur"] == "window-order" and pos in ("set-operation", "set-operand"):
+        return  # (the window column would change the number of select items of one operand)
     base = base_query(d, case["order"], case["sur"], reg, t)
     if pos == "set-operation":
-        so0 = base.union(reg[d].from_(t).select(t.b))
+        so0 = base.union(reg[d].from_(t).select(t.b).where(t.b < 999))
         if case["order"]:
             so0 = so0.orderby(t.id)
         if case["setter"] not in ("limit_offset", "offset_limit"):
@@ -369,7 +380,9 @@ def run_case(case, mon):
         if not top_seen:
             mon.violation("%s:top-missing:%s" % (DIALECT_OF[d], pos), "top(%r) left no SELECT TOP (n) in %r" % (lim, sql1[:200]))
             return
-    s0, s1 = sig(t0), sig(t1)
+    # (numbered placeholders behind the tail are renumbered by the two pagination values: compare them by kind only)
+    s0 = [("PARAM",) if x.kind == "PARAM" else y for x, y in zip(t0, sig(t0))]
+    s1 = [("PARAM",) if x.kind == "PARAM" else y for x, y in zip(t1, sig(t1))]
     a, b = strip_common(s0, s1)
     tail = t1[a:len(t1) - b]
     removed = t0[a:len(t0) - b]
